@@ -22,7 +22,11 @@ What is proved (all schedules, unbounded):
                                reducer steps behind it: `covers_interR` (the counting comparison with the
                                wildcard correction) and `covers_exclR` (the case table with the relationship
                                status) of `Proofs/ListUsersWild.lean`;
-  * `lu_filter_fga`, `lu_exact1_fga`, `lu_exact2_fga`   the instances for the FGA rules `luRule`.
+  * `lu_filter_fga`, `lu_exact1_fga`, `lu_exact2_fga`   the instances for the FGA rules `luRule`;
+  * `notes_are_defects_stratified`   the one ghost note that is not a defect of the code (`excl-sub-cut`:
+                               the subtracted operand was cut by the cycle guard at a sub-problem of the
+                               exclusion's own path) never appears for a system without negation through
+                               recursion (`answer_no_sub_cut`, `answer_no_sub_cut_fga`).
 The ghost notes are the steps of the Go code that the proof cannot justify; each of them is a confirmed
 defect of the unchanged code (`LU_Sound_Full`, `LU_Complete_Full`, `LU_Filter_Full` are refuted below by
 concrete systems, and reproduced on the real code by the crafted cases of harness/c06).
@@ -31,6 +35,8 @@ import OpenFGAVerif.Proofs.ListUsersStage1
 import OpenFGAVerif.Proofs.ListUsersStage2
 import OpenFGAVerif.Proofs.ListUsersFilter
 import OpenFGAVerif.Proofs.ListUsersFga
+import OpenFGAVerif.Proofs.ListUsersStrat
+import OpenFGAVerif.Proofs.ListUsersFgaStrat
 import OpenFGAVerif.Proofs.Stratified
 import OpenFGAVerif.Gen.ListUsers
 
@@ -104,6 +110,14 @@ theorem lu_exact_wild_stratified {N K : Type} [DecidableEq N] [DecidableEq K] (s
     (u ∈ a.users → D (specSys sys u true) (stratInterp (specSys sys u true) rk) [] root) ∧
     (P (specSys sys u true) (stratInterp (specSys sys u true) rk) [] root → u ∈ a.users ∨ sys.wk ∈ a.users) :=
   lu_exact2 sys limit u _ hst (coherent_of_stratified hs) root a h he hn
+
+/-- for stratified systems the ghost note `excl-sub-cut` never appears: "no ghost note" only excludes the
+steps that are defects of the code -/
+theorem notes_are_defects_stratified {N K : Type} [DecidableEq N] [DecidableEq K] (sys : LSys N K) (limit : Nat)
+    (u : K) (cw : Bool) (rk : N → Nat) (hs : Stratified (specSys sys u cw) rk)
+    (hleaf : ∀ n, ¬ NoteLeaf "excl-sub-cut" (sys.rule n)) (root : N) (a : Answer K)
+    (h : ListUsersRel sys limit root a) : "excl-sub-cut" ∉ a.notes :=
+  answer_no_sub_cut sys limit u cw rk hs hleaf root a h
 
 /-! ## The full statements, and why they do not hold of the unchanged code -/
 
